@@ -4,6 +4,8 @@ cd "$(dirname "$0")/.." || exit 2
 export VERIF_TIER="${2:-${VERIF_TIER:-quick}}"
 case "$1" in
   C01) exec python3-vt checks/c01.py ;;
+  C02) exec python3-vt checks/c02.py ;;
+  C03) exec python3-vt checks/c03.py ;;
   C04) exec python3-vt checks/lookup.py C04 ;;
   C05) exec python3-vt checks/c05.py ;;
   C13) exec python3-vt checks/c13.py ;;
